@@ -1194,6 +1194,9 @@ pub fn c16_scenario(text: &str, rng: &mut Rng) -> Scenario {
         FileSpec { rel: "one.typ".into(), kind: Kind::File, content: text.as_bytes().to_vec(), mode: 0o644, class: "source".into() },
         FileSpec { rel: "dir/two.typ".into(), kind: Kind::File, content: text.as_bytes().to_vec(), mode: 0o644, class: "source".into() },
         FileSpec { rel: "three.typ".into(), kind: Kind::File, content: b"#let   three=3\n".to_vec(), mode: 0o644, class: "unformatted".into() },
+        // an erroneous file that a name-ordered or readdir-ordered walk may visit before the source
+        FileSpec { rel: "dir/a_broken.typ".into(), kind: Kind::File, content: b"#f(\n".to_vec(), mode: 0o644, class: "erroneous".into() },
+        FileSpec { rel: "dir/zz_broken.typ".into(), kind: Kind::File, content: b"#let x = (1,\n".to_vec(), mode: 0o644, class: "erroneous".into() },
     ];
     let mut steps = vec![];
     // stdout, several files in argument order
